@@ -316,6 +316,30 @@ theorem searchLoop_depth_one (maxS : Nat) : ∀ r i, i + r ≤ maxS →
     simp only [searchLoop, List.replicate_succ]
     rw [if_neg (by omega), ih (i + 1) (by omega)]
 
+/-! ## reading memo entries -/
+
+theorem reads_materialised {α : Type} (xs : List α) : ∀ ks : List Nat,
+    (Stored.materialised xs).reads ks = ks.map (xs.take ·) := by
+  intro ks
+  induction ks with
+  | nil => rfl
+  | cons k ks ih => simp [Stored.reads, Stored.read, ih]
+
+theorem reads_replaying {α : Type} : ∀ (ks : List Nat) (cached rest : List α),
+    (Stored.replaying cached rest).reads ks = ks.map ((cached ++ rest).take ·) := by
+  intro ks
+  induction ks with
+  | nil => intro _ _; rfl
+  | cons k ks ih =>
+    intro cached rest
+    simp only [Stored.reads, Stored.read, List.map_cons]
+    rw [ih]
+    simp [List.append_assoc, List.take_append_drop]
+
+theorem reads_oneShot_pair {α : Type} (xs : List α) (j k : Nat) :
+    (Stored.oneShot xs).reads [j, k] = [xs.take j, (xs.drop j).take k] := by
+  simp [Stored.reads, Stored.read]
+
 /-! ## memoised evaluation on acyclic graphs does not depend on what was asked before -/
 
 /-- `rank` witnesses acyclicity: every dependency has a strictly smaller rank -/
